@@ -620,7 +620,9 @@ func (h *harness) faultRestart(c faultCase) {
 	}
 }
 
-func (h *harness) faultSweep(skip, keep bool, n int, seed int64) {
+// faultSweep: lidsOnly = a large fraction (a token with more postings than one LID block holds): only transient faults,
+// only on the calls of the LID section, and restarts only for dropped errors.
+func (h *harness) faultSweep(skip, keep bool, n int, seed int64, lidsOnly bool) {
 	work, _ := os.MkdirTemp(h.work, "fs")
 	defer os.RemoveAll(work)
 	e := newActive(work, seed, n, skip, keep)
@@ -643,6 +645,9 @@ func (h *harness) faultSweep(skip, keep bool, n int, seed int64) {
 	}
 	for _, persistent := range []bool{false, true} {
 		for k := 0; k <= total+1; k++ {
+			if lidsOnly && (persistent || (k != 0 && (k <= clean.marks[8] || k > clean.marks[9]))) {
+				continue
+			}
 			r := sealIndexWithFault(e, k, persistent)
 			r.idx.Close()
 			res := "1"
@@ -670,13 +675,16 @@ func (h *harness) faultSweep(skip, keep bool, n int, seed int64) {
 	var cases []faultCase
 	cases = append(cases, swallowed...)
 	step := h.o.Pick(5, 1)
+	if lidsOnly {
+		step = total + 1 // only k = 0 and the dropped ones
+	}
 	for k := 0; k <= total; k += step {
 		cases = append(cases, faultCase{skip, keep, n, seed, k, false})
 	}
-	for k := max(1, total-5); k <= total; k++ { // every call of the registry block and of the header that is written last
+	for k := max(1, total-5); k <= total && !lidsOnly; k++ { // every call of the registry block and of the header that is written last
 		cases = append(cases, faultCase{skip, keep, n, seed, k, false})
 	}
-	if h.o.Thorough() {
+	if h.o.Thorough() && !lidsOnly {
 		for k := 1; k <= total; k += 3 {
 			cases = append(cases, faultCase{skip, keep, n, seed, k, true})
 		}
@@ -1059,7 +1067,7 @@ func main() {
 				lim, _ := strconv.ParseUint(kv["limit"], 10, 64)
 				h.diskFull(kv["skip"] == "1", kv["keep"] == "1", atoi("n"), seed, lim)
 			case strings.HasPrefix(l, "sdocsfault "):
-				h.faultSweep(false, false, atoi("n"), seed)
+				h.faultSweep(false, false, atoi("n"), seed, false)
 			case strings.HasPrefix(l, "load "):
 				if h.tplDir == "" {
 					h.crashSweep(false, false, 300, 1, rng, true)
@@ -1093,8 +1101,10 @@ func main() {
 			h.diskFullSweep(true, false, o.Pick(800, 3000), seed+7, o.Pick(5, 25))
 		}
 		if only("fault") {
-			h.faultSweep(false, false, n, seed+4)
-			h.faultSweep(true, false, o.Pick(600, 5000), seed+5)
+			h.faultSweep(false, false, n, seed+4, false)
+			h.faultSweep(true, false, o.Pick(600, 5000), seed+5, false)
+			// a fraction whose `_all_` token has more postings than consts.LIDBlockCap: its LID list spans two blocks
+			h.faultSweep(true, false, consts.LIDBlockCap+o.Pick(4500, 70000), seed+8, true)
 		}
 	}
 	for _, c := range []*vh.Channel{h.chLoad, h.chTrace, h.chCrash, h.chFault} {
